@@ -135,7 +135,7 @@ impl Check for Thresholds {
                     let can = matches!(e.try_invoke_contract::<bool, soroban_sdk::Error>(&pol, &Symbol::new(e, "can_enforce"), args.clone()), Ok(Ok(true)));
                     let got = if *by_account { call("enforce", args) } else { e.try_invoke_contract::<Val, soroban_sdk::Error>(&pol, &Symbol::new(e, "enforce"), args).map(|r| r.is_ok()).unwrap_or(false) };
                     let want = m.installed && if cfg.weighted { subset.iter().map(|k| *m.w.get(k).unwrap_or(&0) as u64).sum::<u64>() >= m.t as u64 } else { subset.len() as u32 >= m.t };
-                    st.hit(if got { "tx.ok" } else { "tx.refused" });
+                    st.tx(if *by_account { "enforce" } else { "enforce_by_stranger" }, got);
                     if !*by_account && got { return Err(violation("enforce.needs_account", "enforce", i, format!("{s:?}"))); }
                     if *by_account && can != got { return Err(violation("agree.can_enforce_eq_enforce", "enforce", i, format!("can {can} enforce {got} at {s:?} model {m:?}"))); }
                     if can != want {
@@ -145,7 +145,7 @@ impl Check for Thresholds {
                 }
             }
             if let Some((kind, got, exp)) = outcome {
-                st.hit(if got { "tx.ok" } else { "tx.refused" });
+                st.tx(kind, got);
                 if got != exp { return Err(violation("config.zero_or_unreachable_refused", kind, i, format!("{s:?}: real {got} model {exp}; model {m:?} signers {}", cfg.signers))); }
                 if !got && w.storage_digest(&[&pol]) != before { return Err(violation("fail.no_trace", kind, i, format!("{s:?}"))); }
             }
